@@ -4,7 +4,7 @@ Harness: harness/h_aead.c (library driver, oracles) + harness/h_aead_ref.c
 (reference side: OpenSSL EVP GCM/CCM, EAX written from the paper over EVP CMAC
 and AES-CTR, direct RFC 3610 CCM as a cross-check of EVP CCM).
 """
-from vrun import Job
+from vrun import Job, with_alt_flavours
 
 LEVEL = 'exploration'
 RULE = ('rand: seeded sessions (mode x AES ctr/ctrcbc impl x GHASH impl x key size), 1-6 messages per '
@@ -47,13 +47,13 @@ PARAMS = {
 
 def jobs(tier, seed):
     p = PARAMS['thorough' if tier == 'thorough' else 'quick']
-    return [Job('w%d' % i, 'h_aead',
+    return with_alt_flavours([Job('w%d' % i, 'h_aead',
                 ['--seed', seed, '--worker', i, '--nworkers', N, '--cases', p['cases'],
                  '--split-max', p['split_max'], '--split-keys', p['split_keys'],
                  '--flip-msgs', p['flip_msgs'], '--ccm-decl', p['ccm_decl'], '--edge', p['edge']],
                 flavour='asan', libs=['-lcrypto'], extra_src=['h_aead_ref.c'],
                 timeout=600 if tier != 'thorough' else 3000)
-            for i in range(N)]
+            for i in range(N)], tier, seed)
 
 
 def finish(res, tier, seed):
